@@ -182,3 +182,71 @@ def wellformed(d, path="$", position=False, comments=False):
     if isinstance(d, (bool, int, float, str)):
         return None
     return f"{path}: leaf of type {type(d).__name__}"
+
+
+# ------------------------------------------------------------------------------------------------
+# building dictionaries directly from the IR (no parser involved) - used by the printer checks
+
+
+def item_value(it, mk=dict):
+    """Python value a dictionary holds for a non-block item (expressions as their source text)."""
+    if it.kind == "attr":
+        if it.shape == "expression":
+            return it.toks[0].text
+        return it.value
+    if it.kind == "repeat":
+        return it.value
+    if it.kind == "kv":
+        d = mk()
+        for kt, vt in it.pairs:
+            d[kt.text.lower()] = vt.text
+        d["__type__"] = it.key
+        return d
+    if it.kind == "config":
+        return {it.toks[0].text.lower(): it.toks[1].text}
+    if it.kind == "projection":
+        return list(it.value)
+    if it.kind == "pairs":
+        return [(a[1], b[1]) for a, b in it.pairs]
+    raise ValueError(it.kind)
+
+
+def build_node(n, mk=dict):
+    d = mk()
+    d["__type__"] = n.type
+    slots = vocab.child_slots(n.type)
+    npoints = 0
+    for it in n.items:
+        k = it.key
+        if it.kind == "block":
+            if slots[k][1] == "list":
+                if k not in d:
+                    d[k] = []
+                d[k].append(build_node(it.node, mk))
+            else:
+                d[k] = build_node(it.node, mk)
+        elif it.kind == "repeat":
+            if k not in d:
+                d[k] = []
+            d[k].append(item_value(it, mk))
+        elif it.kind == "config":
+            if "config" not in d:
+                d["config"] = mk()
+            d["config"].update(item_value(it, mk))
+        elif it.kind == "pairs" and k == "points":
+            pts = item_value(it, mk)
+            if npoints == 0:
+                d[k] = pts
+            elif npoints == 1:
+                d[k] = [d[k], pts]
+            else:
+                d[k].append(pts)
+            npoints += 1
+        else:
+            d[k] = item_value(it, mk)
+    return d
+
+
+def build_doc(nodes, mk=dict):
+    ds = [build_node(n, mk) for n in nodes]
+    return ds[0] if len(ds) == 1 else ds
